@@ -687,8 +687,15 @@ class C16(Prop):
                     elif style == "sparse": v = float("inf") if rng.random() < 0.5 else rng.randrange(0, 9) / 8.0
                     else: v = rng.random() * rng.choice([1, 10, 1e6])
                     d[i][j] = d[j][i] = v
-            ops.append("upgma n=%d%s d=%s" % (n, "" if link == 0 and rng.random() < 0.5 else " link=%d" % link,
-                                              ",".join(dbits(d[i][j]) for i in range(n) for j in range(i + 1, n))))
+            dls = ",".join(dbits(d[i][j]) for i in range(n) for j in range(i + 1, n))
+            ops.append("upgma n=%d%s d=%s" % (n, "" if link == 0 and rng.random() < 0.5 else " link=%d" % link, dls))
+            if rng.random() < 0.6:
+                # round 6: the esl_tree.c functions that take a finished tree (VerifyUltrametric, ToDistanceMatrix, SetCladesizes,
+                # Compare, RenumberNodes) on the same matrix; link2 = the tree it is compared with (same mode: equal topology)
+                ops.append("treeops n=%d link=%d link2=%d d=%s" % (n, link, rng.choice([link, link, 0, 1, 2, 3]), dls))
+        for _ in range(rng.choice([0, 1, 1, 2])):
+            ops.append("simulate n=%d seed=%d" % (rng.choice([2, 2, 3, 4, 5, 8, 16, 17, 33, rng.randrange(2, 65)]),
+                                                  rng.choice([42, 1, 7, rng.randrange(1, 2 ** 32)])))
         return {"name": name, "ops": ops, "sticky": 1}
 
     def pairstr_case(self, rng, name):
@@ -761,6 +768,16 @@ class C16(Prop):
                                                   [0, 1, 2, 3, 0, 1, 2, 3, 0, 1], [4, 4, 4, 4, 4, 4, 4, 4, 4, 4], [17, 17, 0, 1, 16, 16, 4, 4, 4, 4]], samp))
         c.append({"name": "deal64", "sticky": 1, "ops": ["abc t=text"] + ["deal64 m=%d n=%d seed=%d" % t for t in
                   [(1, 1, 42), (1, 10, 42), (5, 52, 42), (3, 300, 42), (10, 10, 1), (20, 100000, 7), (200, 2000, 9), (7, 91, 3), (7, 92, 3)]]})
+        mx = lambda vals: ",".join(dbits(v) for v in vals)
+        c.append({"name": "treeops", "sticky": 1, "ops": ["abc t=text",
+                  "treeops n=2 link=0 link2=0 d=" + mx([0.5]),
+                  "treeops n=3 link=0 link2=1 d=" + mx([0.5, 1.0, 0.5]),                 # AAAA/AABB/BBBB: the tie-rule witness
+                  "treeops n=4 link=0 link2=2 d=" + mx([5/6, 1/2, 3/4, 7/12, 2/3, 5/12]),   # the derived-tie witness
+                  "treeops n=4 link=1 link2=3 d=" + mx([0.1, 0.9, 0.8, 0.85, 0.95, 0.2]),  # ((0,1),(2,3)): renumbering moves nodes
+                  "treeops n=5 link=2 link2=3 d=" + mx([0.0] * 10),
+                  "treeops n=5 link=3 link2=3 d=" + mx([1, 2, 3, 4, 5, 6, 7, 8, 9, 10]),
+                  "treeops n=4 link=0 link2=0 d=" + mx([-1.0, 0.5, 0.25, 0.5, -0.5, 1.0])] +
+                 ["simulate n=%d seed=%d" % t for t in [(2, 42), (3, 42), (4, 1), (8, 7), (16, 42), (17, 4294967295), (33, 12345), (64, 2)]]})
         return c
 
     def extra_evidence(self, ctx):
@@ -995,6 +1012,14 @@ class C16(Prop):
                 r = self._check_tree(int(kv["n"]), [undbits(x) for x in kv["d"].split(",")], f, cnt, int(kv.get("link", 0)))
                 if r: return Failure("monitor", "esl_tree_%s: %s" % (("UPGMA", "WPGMA", "SingleLinkage", "CompleteLinkage")[int(kv.get("link", 0))], r))
                 cnt("upgma"); continue
+            if w[0] == "treeops":
+                r = self._check_treeops(int(kv["n"]), [undbits(x) for x in kv["d"].split(",")], f, int(kv.get("link", 0)), int(kv.get("link2", 0)))
+                if r: return Failure("monitor", "tree functions on the esl_tree_%s tree: %s" % (("UPGMA", "WPGMA", "SingleLinkage", "CompleteLinkage")[int(kv.get("link", 0))], r))
+                cnt("treeops"); continue
+            if w[0] == "simulate":
+                r = self._check_simulate(int(kv["n"]), f)
+                if r: return Failure("monitor", "esl_tree_Simulate(seed=%s, N=%s): %s" % (kv.get("seed"), kv["n"], r))
+                cnt("simulate"); continue
             if w[0] == "deal64":
                 m_, n_ = int(kv["m"]), int(kv["n"])
                 d = [int(x) for x in l.split()[1].split(",")]
@@ -1385,6 +1410,136 @@ class C16(Prop):
                     if not close(ld[k], float(eld[k])) or not close(rd[k], float(erd[k])): return "branch lengths at node %d differ from the exact clustering" % k
                 cnt("tree-exact-oracle-link%d" % link)
             else: cnt("tree-exact-oracle-skipped-ties")
+        return None
+
+    @staticmethod
+    def _tree_shape(n, left, right, parent, preorder=True):
+        """None if (left, right, parent) is a rooted binary tree on taxa 0..n-1 with root 0 (and, if asked, numbered in preorder)"""
+        if not (len(left) == len(right) == len(parent) == n - 1): return "array lengths"
+        taxa, nodes = [], []
+        for k in range(n - 1):
+            for ch in (left[k], right[k]):
+                if ch > 0:
+                    if not (0 < ch <= n - 2): return "child node %d out of range" % ch
+                    nodes.append(ch)
+                    if parent[ch] != k: return "parent[%d] = %d but it is a child of %d" % (ch, parent[ch], k)
+                else:
+                    if not (0 <= -ch < n): return "taxon out of range"
+                    taxa.append(-ch)
+        if sorted(taxa) != list(range(n)): return "taxa below the nodes are %r, not each of 0..%d once" % (sorted(taxa)[:10], n - 1)
+        if sorted(nodes) != list(range(1, n - 1)): return "internal nodes are not each a child exactly once"
+        if parent[0] != 0: return "parent of the root is not 0"
+        if preorder:
+            order, stack = [], [0]
+            while stack:
+                v = stack.pop(); order.append(v)
+                if right[v] > 0: stack.append(right[v])
+                if left[v] > 0: stack.append(left[v])
+            if order != list(range(n - 1)): return "nodes are not numbered in preorder: visit order %r" % order[:12]
+        return None
+
+    @staticmethod
+    def _clades(n, left, right):
+        """set of the taxon sets below the internal nodes (numbering-independent description of the rooted topology)"""
+        memo = {}
+        def node(v):          # v = an internal node (0 is the root, not taxon 0)
+            if v not in memo: memo[v] = child(left[v]) | child(right[v])
+            return memo[v]
+        def child(c): return frozenset([-c]) if c <= 0 else node(c)
+        import sys
+        sys.setrecursionlimit(max(sys.getrecursionlimit(), 4 * n + 100))
+        return set(node(v) for v in range(n - 1)) if n > 1 else set()
+
+    def _check_treeops(self, n, dl, f, link, link2):
+        """VerifyUltrametric / ToDistanceMatrix / SetCladesizes / Compare / RenumberNodes on a cluster_engine tree, judged on the
+        implementation's own output: the renumbered tree is a preorder-numbered tree; the distance matrix is the path length
+        between the taxa in it (renumbering changes no distance); an additive tree from non-negative distances is ultrametric
+        (linkage_additive_ultrametric); Compare(T, T) succeeds, and comparing with the tree of the SAME mode succeeds, before and
+        after renumbering; renumbering changes neither the ultrametric verdict nor any comparison"""
+        import math
+        il = lambda k: [int(x) for x in f[k].split(",")]
+        left, right, parent, tp, cs = il("left"), il("right"), il("parent"), il("tp"), il("cs")
+        ld = [undbits(x) for x in f["ld"].split(",")]; rd = [undbits(x) for x in f["rd"].split(",")]
+        finite = all(math.isfinite(v) for v in dl); nonneg = min(dl) >= 0
+        if f["rn"] != "ok": return "RenumberNodes returned %s" % f["rn"]
+        r = self._tree_shape(n, left, right, parent, preorder=True)
+        if r: return "after RenumberNodes: " + r
+        for k in range(n - 1):
+            for ch in (left[k], right[k]):
+                if ch <= 0 and tp[-ch] != k: return "after RenumberNodes taxaparent[%d] = %d but the taxon hangs off node %d" % (-ch, tp[-ch], k)
+        if nonneg and finite and f["valid"] != "1": return "esl_tree_Validate rejects the renumbered tree"
+        if f["cmpself"] != "ok": return "esl_tree_Compare(T, T) = %s" % f["cmpself"]
+        if f["cmp2"] != f["cmp"]: return "Compare with the second tree gives %s before and %s after renumbering" % (f["cmp"], f["cmp2"])
+        if link2 == link and f["cmp"] != "ok": return "Compare with the tree built again in the same mode = %s" % f["cmp"]
+        if f["vu2"] != f["vu"]: return "VerifyUltrametric gives %s before and %s after renumbering" % (f["vu"], f["vu2"])
+        if link < 2 and nonneg and finite and f["vu"] != "ok": return "the additive tree of non-negative distances is reported not ultrametric (%s)" % f["vu"]
+        if sorted(cs) != sorted(len(c) for c in self._clades(n, left, right)) and len(self._clades(n, left, right)) == n - 1:
+            return "cladesizes %r are not the sizes of the clades" % cs[:12]
+        if cs[0] != n: return "cladesize[0] = %d" % cs[0]
+        if f["dmsym"] != "1": return "ToDistanceMatrix is not symmetric / failed"
+        if finite and f["dm"] not in ("loop",):
+            dm = [undbits(x) for x in f["dm"].split(",")]
+            if len(dm) != n * (n - 1) // 2: return "distance matrix has %d entries" % len(dm)
+            # path length between two taxa in the (renumbered) tree: up from each to the root, common part cancels
+            up = {}
+            for k in range(n - 1):
+                for ch, b in ((left[k], ld[k]), (right[k], rd[k])): up[ch if ch > 0 else ("t", -ch)] = (k, b)
+            def path(x):
+                out, v = [], x
+                while v != 0:
+                    k, b = up[v]; out.append((k, b)); v = k
+                return out
+            scale = max([1.0] + [abs(v) for v in dl])
+            paths = [path(("t", i)) for i in range(n)]
+            it = iter(dm)
+            for i in range(n):
+                for j in range(i + 1, n):
+                    a, b = paths[i], paths[j]
+                    ka = [k for k, _ in a]; kb = set(k for k, _ in b)
+                    lca = next(k for k in ka if k in kb)
+                    e = 0.0
+                    for k, x in a:
+                        e += x
+                        if k == lca: break
+                    for k, x in b:
+                        e += x
+                        if k == lca: break
+                    v = next(it)
+                    if not abs(v - e) <= 1e-9 * scale * n: return "ToDistanceMatrix[%d][%d] = %r, path length in the tree = %r" % (i, j, v, e)
+        return None
+
+    def _check_simulate(self, n, f):
+        """esl_tree_Simulate returns a rooted binary tree on taxa 0..n-1 (consistent parent / taxaparent / cladesize), ultrametric,
+        branch lengths >= 0; its renumbering is in preorder and has the same topology (clade sets, and esl_tree_Compare says so)"""
+        il = lambda k: [int(x) for x in f[k].split(",")]
+        left, right, parent, tp, cs = il("left"), il("right"), il("parent"), il("tp"), il("cs")
+        ld = [undbits(x) for x in f["ld"].split(",")]; rd = [undbits(x) for x in f["rd"].split(",")]
+        r = self._tree_shape(n, left, right, parent, preorder=False)
+        if r: return r
+        for k in range(n - 1):
+            for ch in (left[k], right[k]):
+                if ch <= 0 and tp[-ch] != k: return "taxaparent[%d] = %d but the taxon hangs off node %d" % (-ch, tp[-ch], k)
+        if f["valid"] != "1": return "esl_tree_Validate rejects the tree"
+        if not all(x >= 0.0 for x in ld + rd): return "negative or NaN branch length"
+        if f["vu"] != "ok": return "not ultrametric (%s)" % f["vu"]
+        depth = {}
+        def rootdist(v, acc):
+            stack = [(0, 0.0)]
+            while stack:
+                k, a = stack.pop()
+                for ch, b in ((left[k], ld[k]), (right[k], rd[k])):
+                    if ch > 0: stack.append((ch, a + b))
+                    else: depth[-ch] = a + b
+        rootdist(0, 0.0)
+        if max(depth.values()) - min(depth.values()) > 1e-9 * max(1.0, max(depth.values())): return "root-to-taxon distances differ: %r .. %r" % (min(depth.values()), max(depth.values()))
+        cl = self._clades(n, left, right)
+        if sorted(cs) != sorted(len(c) for c in cl) or cs[0] != n: return "cladesizes %r" % cs[:12]
+        if f["rn"] != "ok": return "RenumberNodes returned %s" % f["rn"]
+        rl, rr, rp = il("rleft"), il("rright"), il("rparent")
+        r = self._tree_shape(n, rl, rr, rp, preorder=True)
+        if r: return "after RenumberNodes: " + r
+        if self._clades(n, rl, rr) != cl: return "RenumberNodes changed the topology"
+        if f["cmp"] != "ok": return "esl_tree_Compare(T, renumbered T) = %s" % f["cmp"]
         return None
 
     def _cons_by_all(self, aln, ft, sf):
